@@ -22,7 +22,9 @@ from common import LeanDriver, run_check
 GROUPS = ["photon_collection", "charge_generation", "charge_collection", "charge_measurement", "readout_electronics"]
 FUNC = "probes.fault"
 EXCS = ["ValueError", "ZeroDivisionError", "KeyError", "TypeError", "RuntimeError", "Exception", "OSError", "IndexError",
-        "NotImplementedError", "AssertionError", "OddError", "QuietError", "LookupError", "FloatingPointError"]
+        "NotImplementedError", "AssertionError", "OddError", "QuietError", "LookupError", "FloatingPointError",
+        "StopIteration", "StopAsyncIteration", "AttributeError", "MemoryError", "RecursionError", "EOFError", "TimeoutError",
+        "ImportError", "NameError", "OverflowError", "UserWarning"]
 OBS_HEAD = "This error occurred in 'Observation' mode with the following parameters:"
 FIT_HEAD = "Exception raised with ModelFitting:"
 
@@ -411,11 +413,14 @@ def body(ck: common.Check):
     for _ in range(24 if quick else 200):
         cases.append(("parallel", gen_case(rng, "parallel")))
     # every exception class at least once
+    # ... in every sequentially executed mode (and, thorough, on the parallel path): a loop written with map() /
+    # next() must not mistake e.g. a model's StopIteration for its own control flow
     for name in EXCS:
-        c = gen_case(rng, rng.choice(["exposure", "sequential"]))
-        if c["fault"]:
-            c["fault"]["exc"] = name
-        cases.append(("classes", c))
+        for mode in (["exposure", "sequential"] if quick else ["exposure", "sequential", "sequential", "parallel"]):
+            c = gen_case(rng, mode)
+            if c["fault"]:
+                c["fault"]["exc"] = name
+            cases.append(("classes", c))
     lean_cases = [(st, c) for st, c in cases]
     answers = LeanDriver("C09").batch([lean_request(c) for _, c in lean_cases])
     for (stream, case), ans in zip(lean_cases, answers):
@@ -465,7 +470,7 @@ def body(ck: common.Check):
             ck.violation(pv[0], pv[1], {"case": c, "impl": impl})
     ck.rule = ("pipelines of 1-3 groups x 1-3 models (some disabled), 1-3 readout steps; exposure, sequential observation over 2-3 values "
                "(x 2 values of a second parameter), parallel observation (threads), calibration (sade / sga / nlopt; fault at an evaluation of the "
-               "initial population or of an evolution); 14 exception classes incl. odd constructors / custom __str__, messages with newlines, "
+               f"initial population or of an evolution); {len(EXCS)} exception classes (incl. StopIteration, warnings, MemoryError), odd constructors / custom __str__, messages with newlines, "
                "unicode, empty; a fault at EVERY (run, step, position) of small pipelines + random positions + fault-free runs; "
                "non-trivial = a fault is injected")
     ck.assumptions = ["'its type' = exact class outside pygmo's island threads; inside them (evolution phase) only the message and the group/model text are required",
